@@ -42,13 +42,14 @@ CHECKS = {
         technique="exhaustive enumeration of bound-declaration programs on the real macro; runtime trait-availability truth table vs iff model",
         ref="DESIGN.md §3 C04"),
     "C05": dict(
-        text="6 concrete dependency type shapes (ident, path, generic instantiation, tuple, array, reference with explicit lifetime) plus a macro_rules-stamped "
+        text="8 concrete dependency type shapes (ident, path, generic instantiation, tuple, array, reference with explicit lifetime, lifetime-parameterised type elided / named by a fn lifetime) plus a macro_rules-stamped "
              "fn whose concrete type is a macro argument x sync/async x ?Send with a genuinely non-Send body x owned/borrowed return x every argument word <= 2 "
              "(quick) / <= 3 (thorough) over {i64, &str, generic T}: the client "
              "calls the function directly, through the trait on C, through <Impl<C> as Tr> and through <Impl<App> as Tr> with a hand-written `impl Tr for App` "
              "(the README 'case 1' hop); each must produce exactly one event with the right C as dependency (address), arguments in order and the model's "
              "result; 9 runtime availability probes (C, Impl<C>, App, Impl<App>, Sync-only app, !Sync app, unrelated type, Impl<Impl<App>>) must match.",
-        note=NOTE, technique="exhaustive enumeration of concrete-dependency programs on the real macro; executed trace + availability probes vs model",
+        note=NOTE + " One open known finding (a concrete type naming a lifetime parameter of the fn) is listed in known_findings.json.",
+        technique="exhaustive enumeration of concrete-dependency programs on the real macro; executed trace + availability probes vs model",
         ref="DESIGN.md §3 C05"),
     "C06": dict(
         text="Every method word of length <= 2 (quick) / <= 3 (thorough) over 19 method shapes (provided methods incl. `where Self: Sized` and pattern parameters, macro_rules-stamped hygiene shapes incl. a macro-named method, unsafe / extern methods, 0-2 arguments incl. same-typed adjacent ones, &str, borrowed "
